@@ -33,7 +33,7 @@ def ref_score(model, umu, uvar, st, off, norm):
 def run(chk):
     chk.prove()
     r = gen.rng(chk.seed, "C08")
-    n_cases = 80 if chk.tier == "quick" else 800
+    n_cases = 80 if chk.tier == "quick" else 4000
     terms = []
     for i in range(n_cases):
         C, D = r.choice([1, 2, 3]), r.choice([1, 2, 3])
